@@ -92,7 +92,11 @@ def judge(r, key, f, a, b, x, ok, tol_eff, dtype, cs):
             r.v(key + "/false-success", "success => f is zero there to within the tolerance or changes sign within the tolerance", cs,
                 observed=dict(x=float(x), abs_f=fx, tol=tol_eff), expected="|f| <= tol or sign change nearby")
             return
-    # (d) 'no sign change and no root at an end point => no success' is subsumed by (c): a success must be certified at the returned point
+    # (d) 'with no sign change and no root at an end point no success is claimed' -- also when the bracket happens to contain an even number of roots
+    #     and the returned point is one of them: nothing certified that bracket.  "No root at an end point" is read at the level of the tolerance.
+    if ok and not sign_change and not end_root:
+        r.v(key + "/success-without-sign-change", "with no sign change over the bracket and no root at an end point no success is claimed", cs,
+            observed=dict(x=float(x), success=True, fa=float(fa), fb=float(fb)), expected="no success")
 
 
 def scalar_case(case):
